@@ -118,4 +118,19 @@ def pathLiterals : List String :=
 def hookPoints : List String :=
   ["target.body.before", "target.body.after", "target.record.failure", "target.record.success", "saveTargetInfo.created", "saveTargetInfo.written", "saveTargetInfo.renamed", "saveIndex.created", "saveIndex.encoded"]
 
+def cliRootRunE : String :=
+  "buildCmd.RunE"
+
+def cliRootFlagVars : List String :=
+  ["always=&buildOptions.Always", "dry-run=&buildOptions.DryRun", "dot=&buildDOT", "json=&buildJSON"]
+
+def cliBuildFlagVars : List String :=
+  ["always=&buildOptions.Always", "dry-run=&buildOptions.DryRun", "json=&buildJSON", "dot=&buildDOT"]
+
+def cliBuildLoadArgs : List String :=
+  ["args", "false", "false"]
+
+def cliBuildRunArgs : List String :=
+  ["label", "buildOptions"]
+
 end Dawn.Expected.Build
